@@ -86,6 +86,7 @@ package safehtml
 //@   serves C13
 //@   ensures guard: isnil(err) == inlang(re_safeTrustedResourceURLPrefixPattern, t.str)
 //@   ensures layout: isnil(err) ==> seqeq(r.str, cat(t.str, encupto(false, s, len(s))))
+//@   ensures nodotdot: isnil(err) ==> !inlang(re_urlDoubleDotSegmentPattern, s)
 //@   ensures zero: !isnil(err) ==> len(r.str) == 0
 
 //@ func ScriptFromDataAndConstant(name stringConstant, data interface{}, script stringConstant) (r Script, err error)
